@@ -1065,7 +1065,25 @@ func jsonPath(msg json.RawMessage, p string) json.Marshaler {
 		if json.Unmarshal(msg, &m) != nil {
 			return msg
 		}
-		return m.jsonPath(p)
+		key := p
+		if i := strings.IndexRune(p, '.'); i >= 0 {
+			key = p[:i]
+		}
+		if _, ok := m[key]; ok || len(m) == 0 {
+			return m.jsonPath(p)
+		}
+		// There is no such member, so this is not a struct.  It may be a
+		// typed map whose values are being projected, e.g. STAGE.map.field.
+		keys := make([]string, 0, len(m))
+		for k := range m {
+			keys = append(keys, k)
+		}
+		sort.Strings(keys)
+		result := make(marshallerArray, len(keys))
+		for i, k := range keys {
+			result[i] = jsonPath(m[k], p)
+		}
+		return result
 	case '[':
 		var arr []json.RawMessage
 		if json.Unmarshal(msg, &arr) != nil {
